@@ -566,6 +566,23 @@ fn vp_native_declared_sizes_not_allocated_body() {
         match outcome { Err(_) => panic!("panic: {}", ctx), Ok(Ok(n)) => panic!("{} bytes reported as a complete body: {}", n, ctx), Ok(Err(_)) => {} }
         assert!(peak <= 512 * 1024, "a single allocation of {} bytes was requested: {}", peak, ctx);
     } } }
+    // a head of any length is read line by line: tens of thousands of field lines that are dropped (names that are not tokens), kept
+    // (until the field limit refuses the head) or folded never make the client hold the head, or a list as long as the head, in memory
+    for line in ["not a field name: x\r\n", ": x\r\n", "a@b: x\r\n", "X-Ok: v\r\n", "bad name : 0123456789012345678901234567890123456789\r\n"] { for count in [40_000usize, 150_000] { for tail in ["\r\n", ""] {
+        let mut wire = b"HTTP/1.1 200 OK\r\n".to_vec();
+        for _ in 0..count { wire.extend_from_slice(line.as_bytes()); }
+        wire.extend_from_slice(b"Content-Length: 0\r\n"); wire.extend_from_slice(tail.as_bytes());
+        let req = PreparedRequest::new(Method::GET, "http://a.test/");
+        let stream = BaseStream::mock(wire);
+        PEAK.store(0, Ordering::SeqCst);
+        WATCH.with(|w| w.set(true));
+        let outcome = std::panic::catch_unwind(std::panic::AssertUnwindSafe(|| { let _ = parse_response(stream, &req, req.url()).and_then(|r| r.bytes()); }));
+        WATCH.with(|w| w.set(false));
+        let peak = PEAK.load(Ordering::SeqCst);
+        cases += 1; crate::verif_native_watchdog::progress();
+        assert!(outcome.is_ok(), "panic on a head of {} lines {:?}", count, line);
+        assert!(peak <= 512 * 1024, "a single allocation of {} bytes was requested while reading a head of {} lines {:?}", peak, count, line);
+    } } }
     println!("VP-NATIVE declared_sizes_not_allocated cases={}", cases);
 }
 
